@@ -14,6 +14,10 @@ Theorem C19_config_independent_refuted_F24 : ~ config_independent_statement.
 Proof. exact config_independent_refuted_F24. Qed.
 Print Assumptions C19_config_independent_refuted_F24.
 
+Theorem C19_config_independent_refuted_F24_two_stores : ~ config_independent_statement.
+Proof. exact config_independent_refuted_F24_two_stores. Qed.
+Print Assumptions C19_config_independent_refuted_F24_two_stores.
+
 Theorem C19_config_independent_refuted_purge_while_swapped : ~ config_independent_statement.
 Proof. exact config_independent_refuted_purge. Qed.
 Print Assumptions C19_config_independent_refuted_purge_while_swapped.
